@@ -94,6 +94,11 @@ for _p, _t in (("C11", "has_match/is_exact_match/get_matches(_and_pos)/iterate_*
     CHECKS[_p] = ("symbolic execution (CrossHair/z3) of the real wrapper methods on a symbolic source text, all paths; oracle = direct re on the emitted text; concrete points with the real re",
                   "For concrete patterns (empty-width, prefix alternation, lazy, anchors, DOTALL, look-arounds, mixed named/unnamed/optional/nested/empty groups) and EVERY source text up to the "
                   "stated length (every code point): " + _t + ".", _E3NOTE, "DESIGN.md §2 " + _p)
+CHECKS["C20"] = ("symbolic execution (CrossHair/z3) of one builder operation on an object with symbolic literal content (inductive step); seed-dependent texts decided equivalent by bounded SMT (z3) exact encoding; two-step histories enumerated concretely",
+                 "For EVERY literal character, each builder operation leaves its operand's text / inferred type / repeatability unchanged and returns what a fresh equal object returns (all paths); "
+                 "class operands likewise for every character. About 4k expressions rebuilt under several real hash seeds give the same text or texts proven equivalent on all texts up to the bound. "
+                 "All two-operation histories (45 operations x 12 operands, aliasing, compile/matching interleaved) on a shared pool keep every object's value and behaviour (enumerated - validation).",
+                 _E1NOTE, "DESIGN.md §2 C20")
 NOT_YET = "check not built yet in this round (work in progress; see DESIGN.md for the planned engine)"
 
 m = {
@@ -104,7 +109,7 @@ m = {
            "baseline_off_cmd": "cd /repo && /venv/bin/python -m pytest -ra -q -p no:cacheprovider --timeout=900 --continue-on-collection-errors",
            "source_commits": [], "add_only": True},
  "engines": [
-   {"name": "symx", "path": "vlib/symx/", "serves_properties": ["C01", "C03", "C04", "C09", "C10", "C11", "C12", "C13", "C14"],
+   {"name": "symx", "path": "vlib/symx/", "serves_properties": ["C01", "C03", "C04", "C09", "C10", "C11", "C12", "C13", "C14", "C20"],
     "kind_free_text": "CrossHair symbolic execution of the real pregex constructors together with CPython's pure-Python re parser; symbolic characters / ints; "
                       "per-path concolic self-validation; counterexamples followed up by rexsat and replayed"},
    {"name": "rexsat", "path": "vlib/rexsat.py", "serves_properties": sorted(CHECKS),
